@@ -1,15 +1,6 @@
-"""Per-property configuration of tools/check.py."""
+"""C17 — throttling (throttle.go)."""
 import collections
-import re
-
-
-def _verdict_stats(cases, model):
-    v = collections.Counter()
-    for ms in model:
-        for m, verdict in ms:
-            v[verdict.split(":")[0]] += 1
-    return dict(v)
-
+from ._util import verdict_stats as _verdict_stats
 
 # ---------------------------------------------------------------- C17
 
@@ -37,8 +28,7 @@ def c17_nontrivial(c, ms):
     return any(i == "refused" for i in impl) or sum(1 for i in impl if i.startswith("delayed")) >= 3
 
 
-PROPS = {
-    "C17": dict(
+CONFIG = dict(
         modules=["SigModel.Props.C17"],
         theorems=["SigModel.Throttle." + t for t in [
             "C17_delay_monotone_bounded", "C17_delay_no_overflow", "C17_block_iff_window", "C17_constants",
@@ -59,5 +49,17 @@ PROPS = {
                      "the stale write-back inside CheckBruteforce under real concurrency is modelled only as the proved "
                      "witness C17_concurrent_lost_update (property part 'including concurrent attempts' is partial)",
                      "C17_block_iff_window assumes a monotone clock and check+throttle not separated by another attempt of the same key/action"],
-    ),
-}
+    )
+
+MANIFEST = dict(
+        text="Machine-checked Lean 4 theorems about a model of throttle.go defined over constants and comparison "
+             "operators regenerated from the source: delay monotone and <= 25 s for every count incl. the 64-bit "
+             "computation; for every history of whole attempts under a monotone clock the outcomes equal a counting "
+             "spec that never forgets (refused iff >= 10 failures within 30 min; delay = f(#failures within 12 h)); "
+             "independence of keys/actions for every op sequence; forgetting after 12 h. Tied to the code by facts "
+             "extraction plus a differential run of the real memoryThrottler with injected clock.",
+        note="Trusted: Lean kernel, extractor, harness/comparison, net.ParseIP; unbounded-Int time. Concurrent "
+             "stale write-back inside CheckBruteforce is only exhibited as a proved witness (partial).",
+        technique="Lean 4 proof (refinement of the entry-list model to a counting spec by induction over op lists) + "
+                  "regenerated constants + differential correspondence",
+    )
